@@ -164,7 +164,15 @@ def run(ch: Choices, focus: str = "C11", params: Optional[dict] = None) -> dict:
         stream.steps = CLOCK.count - c0
         out["steps"] += stream.steps
 
-    res = run_parent(ch, solvers, op, plan, run_worker, cache)
+    parent = None
+    with ch.scope("reuse"):
+        if focus in ("C11", "C17") and ch.chance(1, 4, "second_call"):
+            # the same MultiprocessingSolver instance serves two calls: the second one is the one judged
+            parent = new_parent(solvers)
+            first_plan = dict(plan, template="merge", start={}, stall={})
+            run_parent(ch, solvers, op, first_plan, run_worker, cache, parent=parent)
+            out["probes"]["second_call_on_same_instance"] += 1
+    res = run_parent(ch, solvers, op, plan, run_worker, cache, parent=parent)
     out["vtime"] += res["vtime"]
     out["probes"]["queue_gets"] += res["gets"]
     out["probes"]["messages_delivered"] += len(res["delivery_order"])
@@ -233,12 +241,18 @@ def snapshot_problem(p) -> dict:
     }
 
 
-def run_parent(ch, solvers, op, plan, run_worker, cache) -> dict:
-    """Run the real parent against a fresh World fed from the (cached) worker streams."""
+def new_parent(solvers):
     from nucs.solvers.multiprocessing_solver import MultiprocessingSolver
 
+    return MultiprocessingSolver(solvers, log_level="ERROR")
+
+
+def run_parent(ch, solvers, op, plan, run_worker, cache, parent=None) -> dict:
+    """Run the real parent against a fresh World fed from the (cached) worker streams.  `parent` may be an instance
+    that has already served earlier calls (the parent never mutates its solvers, so reuse is legal)."""
     world = mpsim.World(ch, plan, run_worker, cache)
-    parent = MultiprocessingSolver(solvers, log_level="ERROR")
+    if parent is None:
+        parent = new_parent(solvers)
     res = {"yielded": [], "result": None, "outcome": "returned", "error": None, "stats": None, "stats_error": None}
     try:
         with mpsim.patched(world):
@@ -418,7 +432,13 @@ def enumerate_faults(ch, solvers, op, plan, run_worker, cache, streams, viol, ct
                 ws = (w + 1 + ch.choose(nw - 1, "stall.w")) % nw  # a SURVIVING worker stalls: it must not be given up on
                 if ws not in p["faults"]:
                     p["stall"] = {ws: ch.choose(max(1, len(streams[ws].msgs)), "stall.at")}
-            res = run_parent(ch, solvers, op, p, run_worker, cache)
+            parent = None
+            if ch.chance(1, 3, "reused_parent"):
+                # the fault hits a later call of an instance that already completed a fault-free call
+                parent = new_parent(solvers)
+                run_parent(ch, solvers, op, dict(plan, faults={}, stall={}, start={}, template="merge"), run_worker, cache, parent=parent)
+                out["faults"]["death-during-second-call-of-same-instance"] += 1
+            res = run_parent(ch, solvers, op, p, run_worker, cache, parent=parent)
         out["probes"]["fault_scenarios"] += 1
         out["vtime"] += res["vtime"]
         for kf, vf in res["fired"].items():
